@@ -227,6 +227,7 @@ func framesPairingOracle(t *tap, sess int, rows []frameRow) (class, what string)
 		}
 		return -1
 	}
+	used := map[portKey]map[int]bool{}
 	for i, r := range rows {
 		req, ans := r.in, r.out
 		if r.key.in < 0 {
@@ -236,7 +237,19 @@ func framesPairingOracle(t *tap, sess int, rows []frameRow) (class, what string)
 		if req < 0 {
 			return "frame-half-open", fmt.Sprintf("%s: frame %d holds only the answer packet %s (answer %d of the port) and no request, although every request has been answered", name, i, pid(ans), idx(answs[r.key], ans))
 		}
-		k := idx(reqs[r.key], req)
+		k := -1
+		for j, x := range reqs[r.key] {
+			if x == req && !used[r.key][j] {
+				k = j
+				break
+			}
+		}
+		if k >= 0 {
+			if used[r.key] == nil {
+				used[r.key] = map[int]bool{}
+			}
+			used[r.key][k] = true
+		}
 		if k < 0 {
 			return "frame-cross-port", fmt.Sprintf("%s: frame %d holds request packet %s, which never passed that port", name, i, pid(req))
 		}
@@ -390,6 +403,7 @@ func framesOracle(t *tap, sess int, rows []frameRow, sr *sessRun) (class, what s
 		}
 	}
 	count := map[portKey]int{}
+	usedReq := map[portKey]map[int]bool{}
 	for i, r := range rows {
 		req, ans := r.in, r.out
 		if r.key.in < 0 {
@@ -399,11 +413,20 @@ func framesOracle(t *tap, sess int, rows []frameRow, sr *sessRun) (class, what s
 		if req < 0 {
 			return "frame-without-request", fmt.Sprintf("frame %d on port %v (%s) holds answer packet %d but no request", i, r.key, t.names[r.key], ans)
 		}
+		// (the same packet object can pass a port several times – the packet.None singleton: the
+		// frames of a port take its occurrences in order)
 		k := -1
 		for j, p := range reqs[r.key] {
-			if p == req {
+			if p == req && !usedReq[r.key][j] {
 				k = j
+				break
 			}
+		}
+		if k >= 0 {
+			if usedReq[r.key] == nil {
+				usedReq[r.key] = map[int]bool{}
+			}
+			usedReq[r.key][k] = true
 		}
 		if k < 0 {
 			return "frame-cross-port", fmt.Sprintf("frame %d on port %v (%s): its request packet %d never entered that port (requests there: %v)", i, r.key, t.names[r.key], req, reqs[r.key])
@@ -463,6 +486,14 @@ func framesCaseBody(c *lib.Ctx, fs flowSpec, nsess int, ops []op, early bool, sc
 		}
 	}
 	t := installTap(f)
+	// a watcher of the agent (what a breakpoint is): it must be shown every request and every answer
+	var wmu sync.Mutex
+	watched := map[*process.Process]int{}
+	agent.Watch(runtime.NewFrameWatcher(func(fr *runtime.Frame) {
+		wmu.Lock()
+		watched[fr.Process]++
+		wmu.Unlock()
+	}))
 	r := newRunner(f, nsess)
 	r.onRestart = func(sess int, old, fresh *session) {
 		// the old process and everything recorded for it are gone: the session's log starts afresh
@@ -578,6 +609,19 @@ func framesCaseBody(c *lib.Ctx, fs flowSpec, nsess int, ops []op, early bool, sc
 			class, what = framesPairingOracle(t, si, rows)
 		} else {
 			class, what = framesOracle(t, si, rows, sr)
+		}
+		if class == "" && !lax {
+			// watcher events: one for every request and one for every answer that passed an observed port
+			want := 0
+			for _, k := range t.keys {
+				want += 2 * sr.ip.reqs[portReq{k.sym, k.in < 0, t.names[k]}]
+			}
+			wmu.Lock()
+			got := watched[sr.s.proc]
+			wmu.Unlock()
+			if got != want {
+				class, what = "watcher-events", fmt.Sprintf("%d requests passed the observed ports of the process and every one was answered: the agent's watchers should have been shown %d frame events (request + answer), they were shown %d", want/2, want, got)
+			}
 		}
 		if class != "" {
 			*fails = append(*fails, lib.OracleFail{Class: class, What: fs.String() + ": " + what, Replay: replay()})
